@@ -64,6 +64,10 @@ def initial_cases(tier, seed):
             cases.append({"kind": "spinsym", "mol": mol, "nspin": 2, "fam": fam, "sl": sl, "interp": interp, "df": df, "seed": seed})
     for fam, sl, interp in (("VIJ", "npa", "onsite_direct"), ("VK", "npa", "onsite_spline")) + ((("VJ", "np", "onsite_direct"),) if not quick else ()):
         cases.append({"kind": "closedshell", "mol": "LiH", "nspin": 1, "fam": fam, "sl": sl, "interp": interp, "df": False, "seed": seed})
+    # the forces do not depend on how the grid is cut into blocks (memory budget): both gradient variants, RKS and UKS
+    for mol, nspin, fam, sl, interp in (("LiH", 1, "VIJ", "npa", "onsite_direct"), ("NH2", 2, "VJ", "npa", "onsite_direct"), ("LiH", 1, "VK", "npa", "onsite_spline")) + (
+            (("LiH", 1, "SL", "npa", "onsite_direct"), ("NH2", 2, "VIJ", "np", "onsite_spline"), ("LiH", 2, "VK", "npa", "onsite_direct")) if not quick else ()):
+        cases.append({"kind": "blocks", "mol": mol, "nspin": nspin, "fam": fam, "sl": sl, "interp": interp, "df": False, "seed": seed})
     for fam in ("SDMX1", "VIJ+SDMX1"):
         for nspin in (1, 2):
             cases.append({"kind": "unsupported", "mol": "LiH", "nspin": nspin, "fam": fam, "sl": "npa", "interp": "onsite_direct", "df": False, "seed": seed})
@@ -247,6 +251,41 @@ def run_spinsym(case):
     return {"fail": fails, "evals": 5, "outcome": ["spinsym", ck, float("%.7f" % pol)], "info": {"swap_diff": worst}}
 
 
+def run_blocks(case):
+    """The XC part of the forces (both variants) does not depend on how the grid is cut into blocks.  The public driver
+    never passes less than 2000 MB, so the layer functions it calls are driven directly with a tiny memory budget
+    (PySCF's minimal block of 4 x BLKSIZE points; the grid has ~2000)."""
+    from ciderpress.pyscf import rks_grad, uks_grad
+
+    fails = []
+    ck = ";".join("%s=%s" % (k, case[k]) for k in ("mol", "nspin", "fam", "sl", "interp", "df"))
+    mol, ks, e0 = _ks(case, _ref_coords(case))
+    if not ks.converged:
+        return {"fail": [{"key": "harness-scf-not-converged;" + ck, "confirm": False, "msg": "SCF did not converge"}], "evals": 1, "outcome": "noconv"}
+    ni = ks._numint
+    dm = ks.make_rdm1()
+    mod = rks_grad if case["nspin"] == 1 else uks_grad
+    nldf = ni.has_nldf
+    fns = [("without", mod.get_vxc_nldf if nldf else mod.get_vxc), ("with", mod.get_vxc_nldf_full_response if nldf else mod.get_vxc_full_response)]
+    worst = 0.0
+    evals = 0
+    for name, fn in fns:
+        out = []
+        for mem in (2000, 0.01):
+            ks.grids.build(with_non0tab=True) if False else None
+            exc, vmat = fn(ni, mol, ks.grids, ks.xc, dm, max_memory=mem, verbose=0)
+            out.append((None if exc is None else np.array(exc, copy=True), np.array(vmat, copy=True)))
+            evals += 1
+        d = float(np.abs(out[0][1] - out[1][1]).max())
+        if out[0][0] is not None and out[1][0] is not None:
+            d = max(d, float(np.abs(out[0][0] - out[1][0]).max()))
+        worst = max(worst, d)
+        if d > 1e-9 * (1 + float(np.abs(out[0][1]).max())):
+            fails.append({"key": "block-size-dependent-forces;%s;%s" % (name, ck),
+                          "msg": "the XC gradient terms %s grid response change by %.3e when the grid is processed in minimal blocks instead of one (%d points)" % (name, d, ks.grids.weights.size)})
+    return {"fail": fails, "evals": evals, "outcome": ["blocks", ck, float("%.7f" % np.abs(out[0][1]).max())], "info": {"diff": worst, "ngrids": int(ks.grids.weights.size)}}
+
+
 def run_closedshell(case):
     fails = []
     ck = ";".join("%s=%s" % (k, case[k]) for k in ("mol", "fam", "sl", "interp", "df"))
@@ -299,4 +338,6 @@ def run_case(case):
         return run_spinsym(case)
     if case["kind"] == "closedshell":
         return run_closedshell(case)
+    if case["kind"] == "blocks":
+        return run_blocks(case)
     return run_unsupported(case)
